@@ -64,10 +64,12 @@ def gen_case(r, k, nmol=None, nt=None, tensor=None):
         perm = perm[1:] + perm[:1]                      # a genuine relabelling
     # two-exciton states included in the aggregate (build(mult=2)): linear absorption must not change
     mult = 2 if (nmol >= 2 and not tensor and r.random() < 0.45) else 1
+    # read-only queries a user may make on the system's operators BEFORE the calculation (they must not matter)
+    pre = r.choice([None, None, "site", "eigen", "both"]) if nmol >= 2 else None
     return {"kind": "spec", "mult": mult, "nmol": nmol, "nt": nt, "dt": dt, "rwa": e0, "energies": energies, "dipoles": dipoles,
             "geometry": geometry, "positions": positions, "couplings": couplings, "reorgs": reorgs, "cortime": cortime,
             "T": 300.0, "tensor": bool(tensor), "scale": r.choice([2.0, 0.5, 3.0, -1.5]), "perm": perm,
-            "rot": [r.randint(1, 10 ** 6), r.choice([1, -1])]}
+            "rot": [r.randint(1, 10 ** 6), r.choice([1, -1])], "prequery": pre}
 
 
 def rotation(seed, det):
@@ -141,9 +143,33 @@ def build(c, dip_scale=1.0, rot=None, perm=None):
     return time, ag, cfs
 
 
+def prequery(c, system):
+    """read-only use of the system's operators before a calculation: dipole strengths, sum rule, operator data, in the site basis
+    and / or inside the eigenbasis of the Hamiltonian.  Nothing here may change what a later calculation returns."""
+    import quantarhei as qr
+    how = c.get("prequery")
+    if not how or c["nmol"] < 2:
+        return
+    H = system.get_Hamiltonian()
+    D = system.get_TransitionDipoleMoment()
+
+    def ask():
+        tot = 0.0
+        for n in range(1, H.dim):
+            tot += float(D.dipole_strength(0, n))
+        _ = H.data[0, 0], D.data[0, 0, 0]
+        return tot
+    if how in ("site", "both"):
+        ask()
+    if how in ("eigen", "both"):
+        with qr.eigenbasis_of(H):
+            ask()
+
+
 def calculate(c, time, system, with_tensor):
     import numpy
     import quantarhei as qr
+    prequery(c, system)
     RR = ham = None
     if with_tensor:
         RR, ham = system.get_RelaxationTensor(time, relaxation_theory="stR")
@@ -570,7 +596,11 @@ def corpus():
                "positions": [[0.0, 0.0, 0.0], [8.0, 1.0, 0.0], [16.0, 0.0, 2.0]],
                "couplings": {"0,1": 100.0, "0,2": -50.0, "1,2": 150.0}, "reorgs": [30.0, 30.0, 30.0], "cortime": 100.0, "T": 300.0,
                "tensor": False, "scale": 2.0, "perm": [2, 0, 1], "rot": [5, 1]}
-    return [base, dimer, dimer_t, dimer2, trimer2]
+    dimer_q = dict(dimer)
+    dimer_q.update({"prequery": "site", "nt": 200})
+    trimer_q = dict(trimer2)
+    trimer_q.update({"prequery": "both", "mult": 1})
+    return [base, dimer, dimer_t, dimer2, trimer2, dimer_q, trimer_q]
 
 
 def reuse_corpus():
@@ -591,7 +621,7 @@ def main():
     chk.rule = ("molecules, dimers, trimers; transition energies within +-250 1/cm of the RWA frequency (lines resolved inside the window), "
                 "integer dipole vectors, aggregates built with mult = 1 and mult = 2 (two-exciton states present), couplings explicit (0..+-200 1/cm) or from dipole-dipole geometry, Nt in {100..301} even and odd, "
                 "dt in {1, 1.5, 2} fs, equal or different reorganisation energies, with/without a supplied standard Redfield tensor; each "
-                "case also with scaled, rotated (proper/improper), relabelled inputs; re-use cases: ONE calculator bootstrapped 2-3 times (other RWA frequency, the same one again, RWA then defined on the molecule, another system / lineshape) with calculate() after each, compared with a fresh calculator bootstrapped once; for every aggregate case _excitonic_coft is also driven directly with a random asymmetric integer matrix (-3..3) in place of the eigenvectors, every exciton index, and compared exactly (1e-12) with Model.C11.exc_coft at three time points. Non-trivial: every completed case; distinct by input")
+                "case also with scaled, rotated (proper/improper), relabelled inputs; in 40% of the aggregate cases read-only queries (dipole strengths / operator data in the site basis, inside eigenbasis_of(H) or both) are made on the system before the calculation; re-use cases: ONE calculator bootstrapped 2-3 times (other RWA frequency, the same one again, RWA then defined on the molecule, another system / lineshape) with calculate() after each, compared with a fresh calculator bootstrapped once; for every aggregate case _excitonic_coft is also driven directly with a random asymmetric integer matrix (-3..3) in place of the eigenvectors, every exciton index, and compared exactly (1e-12) with Model.C11.exc_coft at three time points. Non-trivial: every completed case; distinct by input")
     chk.assumptions = [
         "numpy.fft.hfft computes Re sum_m c_m a_m exp(-2 pi i m k / n), c = (1,2,...,2,1), n = 2Nt-2 (hypothesis hfft_spec): monitored, 1e-10",
         "the lineshape function g(t) is the code's own _c2g (spline double integration: oracle, property C09/C10 territory); eigenvectors from "
